@@ -50,6 +50,7 @@ structure Wf (w : World) : Prop where
 
 def Handle.ok (w : World) : Handle → Prop
   | .arr s _ => sliceOk w s
+  | .names _ _ => True
   | .str none => True
   | .str (some p) => p < w.strs.length
   | .set p => p < w.sets.length
@@ -77,6 +78,7 @@ theorem sliceOk_nil {w : World} (h0 : 0 < w.arrs.length) : sliceOk w Slice.nil :
 theorem Handle.ok_le {w w' : World} (h : Le w w') {x : Handle} (hx : x.ok w) : x.ok w' := by
   cases x with
   | arr s f => exact sliceOk_le h hx
+  | names ms b => trivial
   | str p => cases p with
     | none => trivial
     | some q => exact Nat.lt_of_lt_of_le hx h.strs.length_le
@@ -162,6 +164,7 @@ theorem content_le {w w' : World} (hw : Wf w) (h : Le w w') {x : Handle} (hx : x
     content w' x = content w x := by
   cases x with
   | arr s f => simp only [content]; rw [sliceContent_le h hx.1, sliceHidden_le h hx.1]
+  | names ms b => rfl
   | str p => cases p with
     | none => rfl
     | some q => simp only [content]; rw [strContent_le hw h hx]
